@@ -235,6 +235,19 @@ def check_add_days(case):
             raise Violation('%s -> %r, expected %s' % (f, r, want), enc(r['result']) if r['error'] is None else r['error'], enc(want))
     if not judged:
         raise Skip('result-outside-1mar1900..9999')
+    # the same through an array of offsets (a host list and a literal): element k is the date n+k days later
+    offs = [n, n + 1, n + 30]
+    if all(61 <= ref_serial + k < 2958466 for k in (0, 1, 30)) and all(61 <= rd.serial_exact(a) - Fraction(o) < 2958466 for o in offs):
+        env2 = Env(vars={'v_a': a, 'v_o': list(offs)})
+        forms = [('v_o+v_a', 1), ('v_a+v_o', 1), ('v_a-v_o', -1)]
+        if isinstance(n, int):
+            forms.append(('v_a+{%s}' % ','.join(str(o) if o >= 0 else '-%d' % -o for o in offs), 1))
+        for f, sign in forms:
+            r = env2.parse(f)
+            g = r['result']
+            wants = [rd.from_serial_exact(rd.serial_exact(a) + sign * Fraction(o)) for o in offs]
+            if r['error'] is not None or not isinstance(g, list) or len(g) != 3 or not all(close_dt(x, w) for x, w in zip(g, wants)):
+                raise Violation('%s with v_a=%s and offsets %r -> %r, expected the dates %s' % (f, a, offs, r['error'] or g, [str(w) for w in wants]), r['error'] or enc(g), enc(wants))
 
 
 def check_difference(case):
